@@ -174,13 +174,13 @@ PROPS = {
                 rule="every grid point (amount x fee-entry list) is one packet through the real application; non-trivial = the payload carries a fee action that parses; distinct = distinct abstract input"),
     "C05": dict(families=["REQ"], groups=["ack", "req"], level="model_checking", exhaustive=True,
                 rule="every grid point (protocol id x attribute type x attribute values x pre-action) is one packet, executed once with recording wrappers around the real bridge servers and once through the simapp wiring; non-trivial = a successful transfer (request compared) or a mismatched/unrouted payload (must be refused); distinct = distinct abstract input x wiring"),
-    "C08": dict(families=["PAUSE", "BATCH", "DISCARD"], groups=["ack", "pause"], level="model_checking",
+    "C08": dict(families=["PAUSE", "BATCH", "DISCARD", "GENESIS"], groups=["ack", "pause"], level="model_checking",
                 rule="non-trivial = a transfer with a parseable payload received while some protocol/destination is paused, or a pause/unpause message; distinct = distinct (pre-state, input)"),
-    "C09": dict(families=["PAUSE", "DISCARD"], groups=["ack", "pause"], level="model_checking",
+    "C09": dict(families=["PAUSE", "DISCARD", "GENESIS"], groups=["ack", "pause"], level="model_checking",
                 rule="non-trivial = a transfer with a parseable payload received while some action is paused, or a pause/unpause-action message; distinct = distinct (pre-state, input)"),
     "C10": dict(families=["PAUSE", "AUTHMOD", "RPCS"], groups=["ack", "pause", "params", "stats", "bal"], level="model_checking",
                 rule="non-trivial = any authority message (every RPC x signer class x body class); distinct = distinct (pre-state, input)"),
-    "C18": dict(families=["PAUSE", "DUST", "DISCARD"], groups=["ack", "params"], level="model_checking",
+    "C18": dict(families=["PAUSE", "DUST", "DISCARD", "GENESIS"], groups=["ack", "params"], level="model_checking",
                 rule="non-trivial = a transfer with a non-empty passthrough payload, or an UpdateParams message; distinct = distinct (pre-state, input)"),
 }
 
